@@ -60,7 +60,7 @@ func (c *Config) defaults() {
 		c.MaxDigits = 10
 	}
 	if c.ConcretizeLimit == 0 {
-		c.ConcretizeLimit = 64
+		c.ConcretizeLimit = 300
 	}
 	if c.MaxPaths == 0 {
 		c.MaxPaths = 200000
